@@ -341,7 +341,10 @@ func runProperty(eng *Engine, prop, tier string, timeout int, findings []Finding
 		}
 		res.Funcs = append(res.Funcs, shortFuncKey(k))
 		for i, o := range rep.Obls {
-			if prop == "C11" && o.Kind != "frame:global" && o.Kind != "order:maprange" && !o.Cover {
+			// C11: for the swept functions only the shared-state and map-order obligations; for the functions tagged C11
+			// (the containers whose answers must not depend on insertion order, the configuration singleton) the whole
+			// contract
+			if prop == "C11" && sweepOnly[k] && o.Kind != "frame:global" && o.Kind != "order:maprange" && !o.Cover {
 				continue
 			}
 			// C10: the no-panic obligations, and the preconditions of callees (a callee is panic-free only under its precondition)
@@ -349,6 +352,9 @@ func runProperty(eng *Engine, prop, tier string, timeout int, findings []Finding
 				continue
 			}
 			insts = append(insts, &oblInst{obl: o, text: rep.Texts[i], rep: rep})
+		}
+		for _, u := range rep.Unbound {
+			res.Undecided = append(res.Undecided, fmt.Sprintf("obligation=%s/at-call:%s reason=the contract has clauses for this call site but the function has no such call (the call was moved or removed): they are not decided", shortFuncKey(k), u))
 		}
 		for _, t := range rep.Trusted {
 			res.Trusted[t] = true
